@@ -258,6 +258,16 @@ pub fn check_text(ctx: &mut Ctx, text: &str) {
 }
 
 pub fn run(ctx: &mut Ctx) {
+    if ctx.shard == 0 {
+        // the built-in initial position is the standard one
+        let ini = "rnbqkbnr/pppppppp/8/8/8/8/PPPPPPPP/RNBQKBNR w KQkq - 0 1";
+        if RawBoard::initial().as_fen() != ini || Board::initial().as_fen() != ini || from_raw(&RawBoard::initial()) != MPos::initial() {
+            ctx.violation("initial_position", "raw:initial", "RawBoard::initial / Board::initial is not the standard initial position");
+        }
+        if from_raw(&RawBoard::empty()) != MPos::empty() || RawBoard::default() != RawBoard::empty() {
+            ctx.violation("empty_board", "raw:empty", "RawBoard::empty / default");
+        }
+    }
     exhaustive(ctx);
     let n = ctx.budget(1_500_000, 20_000_000);
     let mut src = Sources::standard(n);
